@@ -407,3 +407,28 @@ End JoinConnProof.
 
 Print Assumptions join_conn_src_is_filter.
 Print Assumptions join_to_src_spec.
+
+(* the hypotheses of join_links_src_are_links are met by a concrete circuit: structure 1 (three pins) has two links to
+   structure 2 and one to structure 3; its link table lists them in another order than its pin list *)
+Section JoinLinksExample.
+Variable K : cfield.
+Let cs : list conn := [((1, 0), (2, 1)); ((2, 0), (1, 2)); ((1, 1), (3, 0))]%nat.
+Let A : lst K := {| l_pins := [(1, 0); (1, 1); (1, 2)]%nat; l_S := mzero |}.
+Let B : lst K := {| l_pins := [(2, 0); (2, 1); (2, 2)]%nat; l_S := mzero |}.
+Let cdA : list (spin * spin) := [((1, 2), (2, 0)); ((1, 0), (2, 1)); ((1, 1), (3, 0))]%nat.
+
+Example join_links_hypotheses_satisfiable :
+  (forall x y, In (x, y) cdA <-> In x (l_pins A) /\ partner cs x = Some y) /\
+  (forall x y, In (x, y) cdA -> mem y (l_pins B) = idmem (fst y) [2%nat]) /\
+  NoDup (map fst cdA) /\
+  join_links_src cdA [((2, 0), (1, 2)); ((2, 1), (1, 0))]%nat [2%nat] = Some ([(1, 2); (1, 0)]%nat, [(2, 0); (2, 1)]%nat).
+Proof.
+  split; [|split; [|split]].
+  - intros x y. split.
+    + intros [H|[H|[H|[]]]]; injection H as <- <-; (split; [simpl; tauto | reflexivity]).
+    + intros [[H|[H|[H|[]]]] Hp]; subst x; vm_compute in Hp; injection Hp as <-; simpl; tauto.
+  - intros x y [H|[H|[H|[]]]]; injection H as <- <-; reflexivity.
+  - simpl. repeat constructor; simpl; intuition congruence.
+  - reflexivity.
+Qed.
+End JoinLinksExample.
